@@ -58,6 +58,41 @@ class _IteratorProxyMixin:
             raise StopIteration
 
 
+class _NestedOwner:
+    """
+    Stands in for the owning instance of a wrapper that is nested inside another wrapper.
+    Assigning the mutated copy to it replaces that element in a copy of the parent collection and
+    re-assigns the parent, so the change is validated by the field of the structure that owns it.
+    Everything else (immutability, protection flags) is read from the real owner.
+    """
+
+    def __init__(self, parent, child):
+        object.__setattr__(self, "_parent", parent)
+        object.__setattr__(self, "_child", child)
+
+    def __getattr__(self, name):
+        if name.startswith("__"):
+            raise AttributeError(name)
+        return getattr(object.__getattribute__(self, "_parent")._instance, name)
+
+    def __setattr__(self, name, copied):
+        parent = object.__getattribute__(self, "_parent")
+        parent._replace_nested(object.__getattribute__(self, "_child"), copied)
+        # `x.f[k] += other` reads the attribute back after the assignment
+        object.__setattr__(self, name, copied)
+
+
+def _bind_nested(parent, elements):
+    # a wrapper built while the parent's value was validated is bound to the scratch Structure()
+    # used for that validation: bind it to the parent instead
+    for element in elements:
+        if (
+            isinstance(element, (_ListStruct, _DequeStruct, _DictStruct))
+            and type(getattr(element, "_instance", None)) is Structure
+        ):
+            element._instance = _NestedOwner(parent, element)
+
+
 class _ListStruct(list, ImmutableMixin, _IteratorProxyMixin):
     """
     This is a useful wrapper for the content of list in an Array field.
@@ -71,6 +106,11 @@ class _ListStruct(list, ImmutableMixin, _IteratorProxyMixin):
         self._instance = struct_instance
         self._name = name
         super().__init__(self._get_defensive_copy_if_needed(mylist))
+        _bind_nested(self, list.__iter__(self))
+
+    def _replace_nested(self, child, copied):
+        replaced = [copied if el is child else el for el in list.__iter__(self)]
+        setattr(self._instance, getattr(self._field_definition, "_name", None), replaced)
 
     def __setitem__(self, key, value):
         self._raise_if_immutable()
@@ -225,6 +265,11 @@ class _DequeStruct(deque, ImmutableMixin, _IteratorProxyMixin):
         self._name = name
         if mydeque is not None:
             super().__init__(self._get_defensive_copy_if_needed(mydeque))
+            _bind_nested(self, deque.__iter__(self))
+
+    def _replace_nested(self, child, copied):
+        replaced = deque(copied if el is child else el for el in deque.__iter__(self))
+        setattr(self._instance, getattr(self._field_definition, "_name", None), replaced)
 
     def __setitem__(self, key, value):
         self._raise_if_immutable()
@@ -410,6 +455,11 @@ class _DictStruct(dict, ImmutableMixin):
         self._instance = struct_instance
         self._name = name
         super().__init__(self._get_defensive_copy_if_needed(mydict))
+        _bind_nested(self, dict.values(self))
+
+    def _replace_nested(self, child, copied):
+        replaced = {k: (copied if v is child else v) for k, v in dict.items(self)}
+        setattr(self._instance, getattr(self._field_definition, "_name", None), replaced)
 
     def __setitem__(self, key, value):
         super()._raise_if_immutable()
